@@ -6,7 +6,7 @@
    Elements are read as in SourceFmt.v. *)
 From Coq Require Import List NArith ZArith Bool Arith Lia.
 From D2P Require Import Str Err Xml TableTypes Tables Fmt NumFmt Bullets Merge Collector Walk Paths Package
-                        PyVal Source SourceBase SourceFmt SourceForms SourceBullets.
+                        PyVal Source SourceBase SourceElem SourceForms SourceBullets.
 Import ListNotations.
 
 Definition n_NumIdAttrs : str := [78;117;109;73;100;65;116;116;114;115]%N.
